@@ -236,13 +236,14 @@ func (ctl *Control) Replaced(newCtl *Control) {
 	verifhook.At("ctl.replaced", "ctl", verifhook.ID(ctl), "by", verifhook.ID(newCtl))
 }
 
-func (ctl *Control) RegisterWorkConn(conn net.Conn) error {
+func (ctl *Control) RegisterWorkConn(conn net.Conn) (retErr error) {
 	xl := ctl.xl
 	defer func() {
 		if err := recover(); err != nil {
 			xl.Errorf("panic error: %v", err)
 			verifhook.At("pool.offer", "ctl", verifhook.ID(ctl), "result", "recovered", "len", 0, "w", conn.RemoteAddr().String())
 			xl.Errorf(string(debug.Stack()))
+			retErr = fmt.Errorf("control is already closed")
 		}
 	}()
 
